@@ -107,6 +107,9 @@ pub fn run(ctx: &Ctx) {
     let io = InOpts { heavy: true, wide_bias: true, ..Default::default() };
     ctx.search("heavy-pow2", 16, per, &|| stream_case_strategy(co, io, false).prop_map(pow2), check);
     ctx.search("general", 16, per, &|| stream_case_strategy(co, InOpts::default(), false), check);
+    if ctx.tier == crate::core::Tier::Thorough {
+        crate::fuzzrun::campaign(ctx, "fz_encode", 8, crate::fuzzrun::runs(30_000), 24_000);
+    }
 }
 
 /// Half of the cases get a block size with many factors of two (partition orders up to 7).
